@@ -39,14 +39,14 @@ def cases(tier, seed):
                         continue
                     out.append(dict(kind="gen", wing_type=wt, num_x=nx, num_y=ny, span_cos=sc, chord_cos=cc,
                                     span=10.0, root_chord=1.0, offset=[0.0, 0.0, 0.0]))
-    n_rand = 150 if tier == "quick" else 1500
+    n_rand = 150 if tier == "quick" else 3000
     for _ in range(n_rand):
         out.append(dict(kind="gen", wing_type=str(rng.choice(["rect", "rect", "CRM", "CRM:jig", "CRM:alpha_2.75"])),
                         num_x=int(rng.integers(2, 9)), num_y=int(2 * rng.integers(1, 21) + 1),
                         span_cos=float(rng.random()), chord_cos=float(rng.random()),
                         span=float(10 ** rng.uniform(-1, 2)), root_chord=float(10 ** rng.uniform(-1.5, 1)),
                         offset=[float(x) for x in rng.uniform(-50, 50, 3)]))
-    n_ms = 120 if tier == "quick" else 1200
+    n_ms = 120 if tier == "quick" else 2400
     for k in range(n_ms):
         ns = int(rng.integers(1, 5))
         sym = bool(rng.integers(2))
@@ -56,7 +56,7 @@ def cases(tier, seed):
                         taper=[float(np.round(rng.uniform(0.3, 1.0), 3)) for _ in range(ns)],
                         sweep=[float(np.round(rng.uniform(-0.3, 0.6), 3)) for _ in range(ns)],
                         root_chord=float(np.round(rng.uniform(0.5, 3.0), 3))))
-    n_un = 60 if tier == "quick" else 400
+    n_un = 60 if tier == "quick" else 800
     for k in range(n_un):
         ns = int(rng.integers(1, 5))
         half = str(rng.choice(["left", "full"]))
@@ -74,7 +74,7 @@ def cases(tier, seed):
         cuts = list(np.cumsum([n - 1 for n in nys])[:-1])
         out.append(dict(kind="unify", mesh=spec, cuts=[int(c) for c in cuts], symmetry=(half == "left"),
                         shift=bool(rng.integers(2)), with_toc=bool(rng.integers(2)), group=group, _cost=3.0))
-    n_gm = 24 if tier == "quick" else 160
+    n_gm = 24 if tier == "quick" else 320
     for k in range(n_gm):
         ns = int(rng.integers(1, 4))
         trivial = (k % 3 == 0)
